@@ -23,6 +23,8 @@ func main() {
 		dev(os.Args[2:])
 	case "gen":
 		gen(os.Args[2:])
+	case "check":
+		check(os.Args[2:])
 	default:
 		fmt.Fprintln(os.Stderr, "unknown command", os.Args[1])
 		os.Exit(2)
@@ -142,4 +144,38 @@ func shortFile(s string) string {
 		return s[k+1:]
 	}
 	return s
+}
+
+// check: run the check of one property (the command registered in MANIFEST.json).
+func check(args []string) {
+	fs := flag.NewFlagSet("check", flag.ExitOnError)
+	repo := fs.String("repo", "/repo", "")
+	verif := fs.String("verif", "/verif", "")
+	dump := fs.String("dump", "", "directory for SMT files")
+	verbose := fs.Bool("v", false, "")
+	timeout := fs.Duration("timeout", 0, "per-query timeout (default 10s quick, 60s thorough)")
+	fs.Parse(args)
+	if fs.NArg() < 1 {
+		fmt.Fprintln(os.Stderr, "usage: govc check [flags] <property> [quick|thorough]")
+		os.Exit(2)
+	}
+	prop := fs.Arg(0)
+	tier := "quick"
+	if fs.NArg() > 1 {
+		tier = fs.Arg(1)
+	}
+	if t := os.Getenv("VERIF_TIER"); t != "" && fs.NArg() < 2 {
+		tier = t
+	}
+	seed := 0
+	fmt.Sscanf(os.Getenv("VERIF_SEED"), "%d", &seed)
+	to := *timeout
+	if to == 0 {
+		to = 10 * time.Second
+		if tier == "thorough" {
+			to = 60 * time.Second
+		}
+	}
+	r := eng.RunCheck(prop, eng.CheckOptions{VerifDir: *verif, RepoDir: *repo, Tier: tier, Seed: seed, Timeout: to, DumpDir: *dump, Verbose: *verbose})
+	os.Exit(r.ExitCode)
 }
